@@ -162,37 +162,76 @@ def covariance_standin(rep, tier, seed):
     return fails
 
 
+def scale_of(B, n):
+    return np.abs(B).reshape(n, -1).max(axis=1).reshape(-1, 1, 1, 1, 1) + 1e-300
+
+
 def native_covariance(seed):
     """native replay on the real library with random rigid motions; returns message or None"""
     import magpylib as magpy
     from scipy.spatial.transform import Rotation as R
 
     rng = np.random.default_rng(seed)
-    for trial in range(20):
+    for trial in range(24):
         Q = R.from_rotvec(rng.normal(size=3))
-        t = rng.normal(size=3)
         m = int(rng.integers(1, 4))
-        srcs = [magpy.magnet.Cuboid(dimension=(1, 2, 3), polarization=(0.1, 0.2, 0.3)),
-                magpy.current.Circle(diameter=1.3, current=2.0), magpy.misc.Dipole(moment=(1, 2, 3))]
-        obs = rng.normal(size=(5, 3)) * 3
+        # how the common rigid motion is applied: poses set directly | rotate(anchor=0) + move on every source | the same on a nested Collection
+        how = ("direct", "methods", "collection")[trial % 3]
+        sc = 1e-9 if trial % 8 == 7 else 1.0  # the whole setup in nanometre-sized numbers (fields of magnets are scale invariant)
+        t = rng.normal(size=3) * sc
+        srcs = [magpy.magnet.Cuboid(dimension=(1 * sc, 2 * sc, 3 * sc), polarization=(0.1, 0.2, 0.3)),
+                magpy.current.Circle(diameter=1.3 * sc, current=2.0), magpy.misc.Dipole(moment=(1, 2, 3))]
+        obs = rng.normal(size=(5, 3)) * 3 * sc
         for s in srcs:
-            s._position = rng.normal(size=(m, 3))
+            s._position = rng.normal(size=(m, 3)) * sc
             s._orientation = R.from_rotvec(rng.normal(size=(m, 3)))
         # two observers inside the cuboid at its first pose (J, M are non-zero only there)
-        obs[:2] = srcs[0]._position[0] + srcs[0]._orientation[0].apply(rng.uniform(-0.3, 0.3, size=(2, 3)))
+        obs[:2] = srcs[0]._position[0] + srcs[0]._orientation[0].apply(rng.uniform(-0.3, 0.3, size=(2, 3)) * sc)
         for fld in "BHJM":
             g = getattr(magpy, "get" + fld)
             poses = [(s._position.copy(), s._orientation) for s in srcs]
             B1 = g(srcs, obs, squeeze=False)
-            for s in srcs:
-                s._position = Q.apply(s._position) + t
-                s._orientation = Q * s._orientation
+            col = None
+            if how == "direct":
+                for s in srcs:
+                    s._position = Q.apply(s._position) + t
+                    s._orientation = Q * s._orientation
+            elif how == "methods":
+                for s in srcs:
+                    s.rotate(Q, anchor=0, start=0)
+                    s.move(t, start=0)
+            else:
+                inner = magpy.Collection(srcs[1], srcs[2])
+                inner._position = rng.normal(size=(m, 3)) * sc
+                col = magpy.Collection(srcs[0], inner)
+                col._position = rng.normal(size=(m, 3)) * sc
+                col.rotate(Q, anchor=0, start=0)
+                col.move(t, start=0)
             B2 = g(srcs, Q.apply(obs) + t, squeeze=False)
+            if col is not None:
+                # ... and once more about the collection's own position (anchor=None), the observers riding along as a sensor of the
+                # collection: the rigid motion x -> Q(x - c) + c + t at every path index; the sensor then reads the unchanged field
+                sens = magpy.Sensor(pixel=Q.inv().apply(obs - t))
+                sens._position = np.zeros((m, 3)); sens._orientation = R.from_quat(np.tile((0, 0, 0, 1.0), (m, 1)))
+                inner.add(sens)
+                B3 = g(srcs, sens, squeeze=False)
+                Q2 = R.from_rotvec(rng.normal(size=3))
+                col.rotate(Q2, start=0)
+                col.move(t, start=0)
+                B4 = g(srcs, sens, squeeze=False)
+                inner.remove(sens)
+                if B3.shape != B4.shape or not np.all(np.abs(B4 - B3) <= 1e-7 * scale_of(B3, len(srcs))):
+                    return (f"trial {trial} (collection rotated about its own position and moved, length unit {sc:g}): get{fld} read by a sensor "
+                            f"that rides along changed (max relative dev {(np.abs(B4 - B3) / scale_of(B3, len(srcs))).max():.3e})")
+                col.remove(srcs[0])
+                inner.remove(srcs[1], srcs[2])
             for s, (p0, o0) in zip(srcs, poses):
                 s._position, s._orientation = p0, o0
             exp = Q.apply(B1.reshape(-1, 3)).reshape(B1.shape)
-            if not np.allclose(B2, exp, rtol=1e-8, atol=1e-12 * (np.abs(B1).max() + 1e-300)):
-                return f"trial {trial}: get{fld} of the moved setup is not the rotated field (max dev {np.abs(B2 - exp).max():.3e})"
+            scale_ = np.abs(B1).reshape(len(srcs), -1).max(axis=1).reshape(-1, 1, 1, 1, 1) + 1e-300
+            if B2.shape != exp.shape or not np.all(np.abs(B2 - exp) <= 1e-7 * scale_):
+                return (f"trial {trial} (rigid motion applied by: {how}, length unit {sc:g}): get{fld} of the moved setup is not the rotated field "
+                        f"(max relative dev {(np.abs(B2 - exp) / scale_).max():.3e})")
     return None
 
 
